@@ -138,6 +138,20 @@ def compare_parts(ra, rb, nfixed):
         sa = sorted(a[k, pos].tobytes() for k in range(nfixed, P_))
         sb = sorted(b[k, pos].tobytes() for k in range(nfixed, P_))
         if sa != sb:
+            # which partitions are kept when fewer are requested than detected is decided by their significant height:
+            # an exact tie between the ones that differ leaves the choice undefined (either may be dropped)
+            ua = [a[k, pos] for k in range(nfixed, P_) if a[k, pos].tobytes() not in set(sb)]
+            ub = [b[k, pos] for k in range(nfixed, P_) if b[k, pos].tobytes() not in set(sa)]
+            if ua and len(ua) == len(ub):
+                fq = np.asarray(ra["freq"].values, dtype="float64")
+                nd_ = a.shape[-1] // len(fq)
+
+                def m0_(v):
+                    e = np.asarray(v, dtype="float64").reshape(len(fq), nd_).sum(1)
+                    return float(np.sum(0.5 * np.diff(fq) * (e[1:] + e[:-1]))) if len(fq) > 1 else float(e.sum())
+                ha, hb = sorted(m0_(v) for v in ua), sorted(m0_(v) for v in ub)
+                if all(abs(x_ - y_) <= 1e-9 * max(abs(x_), abs(y_), 1e-300) for x_, y_ in zip(ha, hb)):
+                    return None, None
             return False, {"reason": "set of swell partitions differs", "position": pos,
                            "nonzero_bins_a": [int((a[k, pos] != 0).sum()) for k in range(P_)],
                            "nonzero_bins_b": [int((b[k, pos] != 0).sum()) for k in range(P_)]}
